@@ -156,7 +156,7 @@ theorem insertBeforeTail_core {f : Forest} {c : Nat} {t : HTree} {q : Nat} {vq :
       have hr2 : X.addConsolidate c (X.prevSibling kr.handle) (some kr.handle) =
           ((X.setValue ka.handle (.text (ta ++ tc))).spliceOut c, true) := by
         rw [hprevS, hpv]
-        exact Forest.addConsolidate_prev hc (hXtext.trans htd) ((Forest.textOf_of_get hka_get).trans hta) _
+        exact Forest.addConsolidate_prev hc (hXtext.trans htd) ((Forest.textOf_of_get hka_get).trans hta) _ hkac
       have hflow := F.flow2 rfl ka.handle (.text (ta ++ tc)) ⟨ka, by simp, rfl⟩ hkac hleaf_t (by
         intro k' hk' e
         have ndL2 : (handlesList (A2 ++ ka :: (kr :: B))).Nodup := by
@@ -217,7 +217,7 @@ theorem insertBeforeTail_core {f : Forest} {c : Nat} {t : HTree} {q : Nat} {vq :
             ((X.setValue kr.handle (.text (tc ++ tb))).spliceOut c, true) := by
           rw [hprevS]
           exact Forest.addConsolidate_next hc (hXtext.trans htd) hprevNone
-            ((Forest.textOf_of_get hkr_get).trans htb)
+            ((Forest.textOf_of_get hkr_get).trans htb) hrc
         have hkrt : kr.value.isText = true := isText_iff_textData.2 ⟨tb, htb⟩
         have hflow := F.flow2 rfl kr.handle (.text (tc ++ tb)) ⟨kr, by simp, rfl⟩ hrc hleaf_t (by
           intro k' hk' e
